@@ -278,6 +278,10 @@ func (g c32SendGen) Apply(op string) (qpeerGen, bool) {
 // k = the known final size, or the highest offset received if none is known.
 // ops: d+ STREAM(off=highest, 2 bytes) | d+f the same with FIN | f@D empty STREAM+FIN at k+D |
 //      d@D 1-byte STREAM ending at k+D | r@D RESET_STREAM(final=k+D, code 5) | rd Read(100) | rd1 Read(1) | cr CloseRead
+//      s<L>@<D>[f] STREAM carrying the L bytes [k+D-L, k+D), with FIN if the f is there (the "recv-ranges"
+//      part): relative to the bytes received so far the range is an exact or inner duplicate, overlaps the
+//      end of the received data, is new and contiguous, is new behind a gap, fills / straddles a gap, or is
+//      empty (FIN only) -- each of them with and without FIN
 
 // c32RecvModel is RFC 9000 section 4.5 for one stream.
 type c32RecvModel struct {
@@ -339,8 +343,40 @@ func c32RecvFrame(m *c32RecvModel, id streamID, op string) (f debugFrame, end in
 			return nil, 0, false, false
 		}
 		return debugFrameResetStream{id: id, code: 5, finalSize: e}, e, true, true
+	case strings.HasPrefix(op, "s"):
+		// s<L>@<D>[f]: the L bytes [k+D-L, k+D), FIN if the f is there
+		body, fin := strings.CutSuffix(op[1:], "f")
+		ls, ds, _ := strings.Cut(body, "@")
+		l, _ := strconv.ParseInt(ls, 10, 64)
+		d, _ := strconv.ParseInt(ds, 10, 64)
+		e := m.k() + d
+		if e-l < 0 || (l == 0 && !fin) {
+			return nil, 0, false, false
+		}
+		data := make([]byte, l)
+		for i := range data {
+			data[i] = 0xd0 + byte(i)
+		}
+		return debugFrameStream{id: id, off: e - l, data: data, fin: fin}, e, fin, true
 	}
 	return nil, 0, false, false
+}
+
+// c32RangeOps is the STREAM alphabet of the recv-ranges part: every (length, end offset, fin)
+// with length in lens and end offset k+D, D in ds, except the empty frame without FIN.
+func c32RangeOps(lens, ds []int) []string {
+	var ops []string
+	for _, fin := range []string{"", "f"} {
+		for _, l := range lens {
+			for _, d := range ds {
+				if l == 0 && fin == "" {
+					continue
+				}
+				ops = append(ops, fmt.Sprintf("s%d@%d%s", l, d, fin))
+			}
+		}
+	}
+	return ops
 }
 
 func c32ExecRecv(c *vx.Ctx, w *vx.W, cs c32Case) {
@@ -511,6 +547,7 @@ func TestVerif_C32(t *testing.T) {
 			[]string{"w100", "w5000", "fl", "cw", "rst", "ss", "msd", "ack", "loss", "pto"},
 			[]string{"w1", "w100", "w5000", "fl", "cw", "rst", "ss", "msd", "ack", "loss", "pto"})
 		recvOps := []string{"d+", "d+f", "f@-1", "f@0", "f@1", "d@0", "d@1", "r@-1", "r@0", "r@1", "rd", "rd1", "cr"}
+		rangeOps := append(c32RangeOps([]int{0, 1, 2}, vx.Pick(c, []int{-1, 0, 1, 2}, []int{-1, 0, 1, 2})), "r@-1", "r@0", "r@1", "rd")
 		type part struct {
 			name  string
 			kinds []string
@@ -526,6 +563,7 @@ func TestVerif_C32(t *testing.T) {
 			// seeded start state: 2 bytes received, both read, the second one through the lock-free fast path
 			{"recv-after-fast-read", []string{"uni", "bidi"}, recvOps, vx.Pick(c, 3, 4), c32RecvGen{m: c32RecvModel{fs: -1}}, c32ExecRecv, []string{"d+", "rd1", "rd1"}},
 			{"recv", []string{"uni", "bidi"}, recvOps, vx.Pick(c, 5, 6), c32RecvGen{m: c32RecvModel{fs: -1}}, c32ExecRecv, nil},
+			{"recv-ranges", []string{"uni", "bidi"}, rangeOps, vx.Pick(c, 4, 5), c32RecvGen{m: c32RecvModel{fs: -1}}, c32ExecRecv, nil},
 		}
 		for _, p := range parts {
 			vx.Enumerate(c, p.name, vx.Opts{Serial: true, Crumb: true}, func(yield0 func(c32Case) bool) {
